@@ -8,7 +8,7 @@ from __future__ import annotations
 import common
 from plain import gen_ops, run_plain_history, shrink_history
 
-RULE = ("fresh diagram (40%: after a random plain prefix history incl. cache-touching queries) + unrestricted expand_bfs or expand_dfs over G-expr/G-tt/G-compose networks with inputs, constants, "
+RULE = ("fresh diagram (15%: small max_motifs_per_node; 15%: declared variable order, pickled while partially expanded; 40%: after a random plain prefix history incl. cache-touching queries) + unrestricted expand_bfs or expand_dfs over G-expr/G-tt/G-compose networks with inputs, constants, "
         "self-loops, non-monotonic functions (n<=6 quick, <=7 thorough); non-trivial = at least 3 nodes and one of "
         "{input, constant, edge with two motifs, node with two parents}; distinct by network hash")
 ASSUMPTIONS = [
